@@ -31,6 +31,7 @@ from collections.abc import Collection, Container, Iterable
 from typing import Any, NamedTuple, Protocol
 
 from kopf._cogs.aiokits import aiotasks, aiotoggles
+from kopf._cogs.clients import errors
 from kopf._cogs.configs import configuration
 from kopf._cogs.structs import bodies, references
 from kopf._core.engines import peering
@@ -85,7 +86,11 @@ class Ensemble:
         task.add_done_callback(self._escalate)
 
     def _escalate(self, task: aiotasks.Task) -> None:
-        if not task.cancelled() and task.exception() is not None and self.failure is None:
+        # A resource (or its namespace) that has vanished under a running watch is not a failure:
+        # the observers notice its removal on their own, and the dead task is dropped or respawned.
+        if task.cancelled() or isinstance(task.exception(), errors.APINotFoundError):
+            return
+        if task.exception() is not None and self.failure is None:
             self.failure = task.exception()
             if self.supervisor is not None:
                 self.supervisor.cancel()
@@ -264,7 +269,7 @@ async def spawn_missing_watchers(
     for resource, namespace in itertools.product(watched_resources, watched_namespaces):
         namespace = namespace if resource.namespaced else None
         dkey = EnsembleKey(resource=resource, namespace=namespace)
-        if dkey not in ensemble.watcher_tasks:
+        if dkey not in ensemble.watcher_tasks or ensemble.watcher_tasks[dkey].done():
             what = f"{resource}@{namespace}"
             resource_indexed: aiotoggles.Toggle | None = None
             if resource in indexed_resources:
